@@ -9,6 +9,8 @@ import (
 	"bytes"
 	"encoding/json"
 	"fmt"
+	"os"
+	"path/filepath"
 	"reflect"
 	"sort"
 	"strings"
@@ -16,6 +18,7 @@ import (
 	"sigs.k8s.io/kustomize/api/krusty"
 	"sigs.k8s.io/kustomize/api/resmap"
 	"sigs.k8s.io/kustomize/api/resource"
+	"sigs.k8s.io/kustomize/api/types"
 	"sigs.k8s.io/kustomize/kyaml/filesys"
 	"sigs.k8s.io/yaml"
 )
@@ -24,7 +27,10 @@ type tree07 struct {
 	Files   map[string]string `json:"files"`
 	Dir     string            `json:"dir"`
 	Reorder string            `json:"reorder,omitempty"` // krusty.Options.Reorder: "" / "none" (library default), "legacy" (CLI default), "unspecified"
-	Note    string            `json:"note,omitempty"`
+	// Exec: paths (among Files) of executable KRM-function scripts. A tree with scripts is built on the real file system
+	// in a temporary directory with exec functions enabled (types.EnabledPluginConfig + FnpLoadingOptions.EnableExec).
+	Exec []string `json:"exec,omitempty"`
+	Note string   `json:"note,omitempty"`
 }
 
 // ---------- document generation ----------
@@ -511,6 +517,40 @@ func genTree07(rng *Rng) tree07 {
 
 // ---------- running a build ----------
 
+// c07RunKrustyExec builds a tree that contains exec KRM functions: real files under a temporary directory.
+func c07RunKrustyExec(t tree07) (m resmap.ResMap, cls string, msg string) {
+	root, err := os.MkdirTemp("", "c07exec")
+	if err != nil {
+		return nil, ClsErr, "harness: " + err.Error()
+	}
+	defer os.RemoveAll(root)
+	if r, e := filepath.EvalSymlinks(root); e == nil {
+		root = r
+	}
+	for p, c := range t.Files {
+		full := filepath.Join(root, p)
+		if err := os.MkdirAll(filepath.Dir(full), 0o755); err != nil {
+			return nil, ClsErr, "harness: " + err.Error()
+		}
+		mode := os.FileMode(0o644)
+		if c07StrIn(p, t.Exec) {
+			mode = 0o755
+		}
+		if err := os.WriteFile(full, []byte(c), mode); err != nil {
+			return nil, ClsErr, "harness: " + err.Error()
+		}
+	}
+	cls, msg = protect(func() error {
+		o := c07Options(t.Reorder)
+		o.PluginConfig = types.EnabledPluginConfig(types.BploUseStaticallyLinked)
+		o.PluginConfig.FnpLoadingOptions.EnableExec = true
+		var e error
+		m, e = krusty.MakeKustomizer(o).Run(filesys.MakeFsOnDisk(), filepath.Join(root, t.Dir))
+		return e
+	})
+	return m, cls, msg
+}
+
 func c07RunKrusty(files map[string]string, dir string, reorder string) (m resmap.ResMap, cls string, msg string) {
 	fs := filesys.MakeFsInMemory()
 	for p, c := range files {
@@ -587,7 +627,14 @@ func checkBuild07(r *Run, t tree07, verbose bool) string {
 		r.Violation(OracleViolation{Law: law, Class: cls, Detail: detail, Replay: t})
 		fmt.Fprintf(&log, "LAW %s [%s]: %s\n", law, cls, detail)
 	}
-	m, cls, msg := c07RunKrusty(t.Files, t.Dir, t.Reorder)
+	var m resmap.ResMap
+	var cls, msg string
+	if len(t.Exec) > 0 {
+		m, cls, msg = c07RunKrustyExec(t)
+		r.Count("exec_class", cls+" "+c07FirstLine(msg))
+	} else {
+		m, cls, msg = c07RunKrusty(t.Files, t.Dir, t.Reorder)
+	}
 	r.Count("build_class", cls)
 	fmt.Fprintf(&log, "build: %s %s\n", cls, msg)
 	if cls != ClsOk {
@@ -674,6 +721,11 @@ func checkBuild07(r *Run, t tree07, verbose bool) string {
 		for k := range x.GetAnnotations() {
 			if strings.HasPrefix(k, c07InternalPx) {
 				report("hygiene", "C07/hygiene/output-internal-prefix", fmt.Sprintf("output document %d carries %s", i, k))
+			}
+			// the exec / KRM-function plugin protocol keys (plugins/utils: idAnnotation, HashAnnotation, BehaviorAnnotation)
+			// are written for the plugin and must be taken off what it returns
+			if strings.HasPrefix(k, "kustomize.config.k8s.io/") {
+				report("hygiene", "C07/hygiene/output-plugin-protocol-key", fmt.Sprintf("output document %d carries %s", i, k))
 			}
 		}
 	}
@@ -868,7 +920,8 @@ func finalCase07(r *Run, t tree07) {
 	switch cls {
 	case ClsErr:
 		known := false
-		for _, k := range []string{"missing metadata.name", "missing kind", "not found in removal", "SortOrderTransformer: Failed to append"} {
+		for _, k := range []string{"missing metadata.name", "missing kind", "not found in removal", "SortOrderTransformer: Failed to append",
+			"name hash suffix produces ID conflict"} {
 			if strings.Contains(msg, k) {
 				known = true
 			}
@@ -969,6 +1022,48 @@ func c07HashCollisionTree(rng *Rng) (tree07, bool) {
 	return t, true
 }
 
+// execTree07: a generated tree whose top layer runs one exec KRM function as a transformer. The function is a sed
+// script over the ResourceList it receives: it renames a resource, moves one to another namespace, clones one under a
+// new name, changes a data value, or does nothing - keeping every annotation it was given (a well-behaved function).
+func execTree07(rng *Rng) (tree07, bool) {
+	t := genTree07(rng)
+	m, cls, _ := c07RunKrusty(t.Files, t.Dir, t.Reorder)
+	if cls != ClsOk || m.Size() == 0 {
+		return t, false
+	}
+	rs := m.Resources()
+	victim := rs[rng.Intn(len(rs))]
+	name := victim.GetName()
+	if name == "" || strings.ContainsAny(name, "/.*[]\\&") {
+		return t, false
+	}
+	var sed, note string
+	switch rng.Intn(5) {
+	case 0, 1:
+		// rename: every `name: <name>` line (also the copy inside the id annotation, which is harmless)
+		sed = fmt.Sprintf("s/^\\( *\\)name: %s$/\\1name: %s-fn/", name, name)
+		note = "exec function renames " + name
+	case 2:
+		sed = "s/^\\( *\\)namespace: \\(.*\\)$/\\1namespace: moved/"
+		note = "exec function moves namespaced resources to another namespace"
+	case 3:
+		sed = "s/^\\( *\\)k1: .*$/\\1k1: from-fn/"
+		note = "exec function edits a data value"
+	default:
+		sed = "s/nothing-to-replace/x/"
+		note = "exec function returns its input"
+	}
+	script := "#!/bin/sh\nexec sed -e '" + sed + "'\n"
+	t.Files[t.Dir+"/fn.sh"] = script
+	t.Exec = []string{t.Dir + "/fn.sh"}
+	t.Files[t.Dir+"/fn.yaml"] = "apiVersion: example.com/v1\nkind: SedFn\nmetadata:\n  name: fn\n  annotations:\n    config.kubernetes.io/function: |\n      exec:\n        path: ./fn.sh\n"
+	top := t.Files[t.Dir+"/kustomization.yaml"]
+	top += "transformers:\n- fn.yaml\n"
+	t.Files[t.Dir+"/kustomization.yaml"] = top
+	t.Note = note
+	return t, true
+}
+
 func runBuilds07(r *Run, rng *Rng, corp corpus07, n int, tier string) error {
 	for _, t := range corp.Builds {
 		r.Count("build_kind", "corpus")
@@ -982,6 +1077,14 @@ func runBuilds07(r *Run, rng *Rng, corp corpus07, n int, tier string) error {
 				r.Count("build_kind", "hash-collision")
 				checkBuild07(r, t, false)
 				finalCase07(r, t)
+				continue
+			}
+		}
+		if i%8 == 3 {
+			if t, ok := execTree07(g); ok {
+				r.Count("build_kind", "exec-function")
+				r.Count("exec_note", t.Note)
+				checkBuild07(r, t, false)
 				continue
 			}
 		}
